@@ -94,7 +94,8 @@ def _cvc5_solve(smt2, timeout_ms, want_model):
 
 def solve_one(job):
     """job = (name, smt2, timeout_ms).  returns dict"""
-    name, smt2, timeout_ms = job
+    name, smt2, timeout_ms = job[:3]
+    prefer = job[3] if len(job) > 3 else None
     if "/canary#" in name:
         # vacuity canary: only 'unsat' matters (contract vacuous); one short attempt, no portfolio
         verdict, info, model = _z3_solve(smt2, 2000, False)
@@ -103,6 +104,8 @@ def solve_one(job):
     # strings: a short z3 attempt first (instant on most), then cvc5 (decides the word equations z3
     # leaves open), then z3 with the full budget
     order = [("z3", min(2500, timeout_ms)), ("cvc5", timeout_ms), ("z3", timeout_ms)] if stringy else [("z3", timeout_ms), ("cvc5", timeout_ms)]
+    if prefer == "cvc5":
+        order = [("cvc5", timeout_ms), ("z3", timeout_ms)]
     attempts = []
     total = 0.0
     for backend, budget in order:
